@@ -25,8 +25,9 @@ CLAIMED['C20'] = dict(
     technique="Coq proof by induction over operation histories on a hand-written executable model, tied by translator T-G and differential runs",
     text=("Coq theorems (closed under the global context) about an executable model of ConfigValue/ConfigMeta: precedence explicit > "
           "environment > default, per-operation effect and frame over arbitrary histories, delete restores, falsy values honoured, "
-          "atomic bulk update, parse round trips (bool any case/blanks, decimal numerals, lists/tuples, key=value mappings, enums). "
-          "The test/source order and update mode are regenerated from config.py each run; the model is executed by vm_compute on "
+          "atomic bulk update, parse round trips (bool any case/blanks, decimal numerals, lists/tuples and key=value mappings including the empty ones, "
+          "every enum member by its own name whatever its letter case, by number; pinned upper-case-only lookup refuted). "
+          "The test/source order, the enum name-lookup order and the update mode are regenerated from config.py each run; the model is executed by vm_compute on "
           "the same random histories as the real classes."),
     note=("Trusted: Coq kernel (no axioms); translator T-G; correspondence harness (600 quick / 3000 thorough histories); float() "
           "and custom parsers are oracles; ASCII text only."),
@@ -58,8 +59,10 @@ CLAIMED['C07'] = dict(
     technique="Coq invariant proofs by induction on fuel and program structure (frame, flags restored, outcome classes); model tied by differential runs",
     text=("Theorems for arbitrary implementation programs, nesting and exception kinds: every evaluation leaves registrations, explicit "
           "values and all cycle flags as it found them; flags are clear after every operation of any history; a computing read ends "
-          "in AttributeError for None and for fuel exhaustion (never RecursionError), ValueError for non-finite results, and a "
-          "failing read adds no remembered entry. 'As if it never happened' for later reads is checked on the implementation against "
+          "in AttributeError for None and for fuel exhaustion (never RecursionError, in every reachable state), ValueError for non-finite results, and a "
+          "failing read adds no remembered entry; runaway recursion fails the whole read: only the outermost read converts the RecursionError, a nested "
+          "read hands it on without remembering anything, try/except AttributeError, has_value, sequencing and arithmetic cannot catch it, and every "
+          "operation restores the read-depth mark. 'As if it never happened' for later reads is checked on the implementation against "
           "a failure-free twin (partial: not a theorem)."),
     note=HOOK_NOTE, ref="DESIGN.md section 4 C07")
 
@@ -71,6 +74,9 @@ CLAIMED['C13'] = dict(
           "twice; previous/next navigation equals the list neighbours (IndexError at the ends), removed units name no parent. "
           "Flatten (walk over a snapshot, inner sequences dissolved on the spot, list rebuilt) preserves consistency for every "
           "sequence that does not list itself, so every admissible history including flatten keeps every reachable state consistent. "
+          "A slice may be replaced by new units or by units of the replaced window itself.  Translator T-U regenerates every list-editing method of "
+          "Unit._SubUnitsList as an effect sequence in source order; theorem: run in its own order each method yields the model's update (all admissible "
+          "orders), adopt-before-release is refuted. "
           "Deep copy of a tree is covered by C12's theorem and the oracle (partial here). Adding a still-listed unit is excluded by the hypothesis 'admissible' and recorded as known "
           "finding add-listed-unit with a machine-checked refutation witness."),
     note=("Trusted: Coq kernel (no axioms); hand-written model coq/lib/UnitTree.v tied to unit.py/sequence.py by the correspondence "
@@ -193,7 +199,8 @@ CLAIMED['C10'] = dict(
           "polyline is its own mirror image.  Roll surface: grid = contour at x = 0, surface of revolution off it, even in x, x grid "
           "antisymmetric; bilinear cell reproduces its four nodes and is mirror symmetric in both directions.  Spline groove (Q, closed "
           "under the global context): depth function through every vertex, invariant under insertion of collinear vertices anywhere, centre "
-          "invariant under any resampling within the extent, extent symmetric after centring; the pinned mean-centring is a refuted witness. "
+          "invariant under any resampling within the extent, extent symmetric after centring; the pinned mean-centring is a refuted witness; the boundary "
+          "strip keeps every given vertex off the face and invents none (the pinned neighbour-only strip is refuted). "
           "Partial: cell location of interpn/interp1d and float rounding are abstracted; closure at z4 is a hypothesis (C04)."),
     note=("Trusted: Coq kernel; Reals axioms for the R part (spline part axiom free); translator T-D validated on every catalogue groove "
           "(junction attributes, contour_points, local_depth rebuilt from the regenerated terms); Surface.v hand-written, spline part tied by "
